@@ -109,13 +109,13 @@ def families(tier):
     ]
     if not q:
         fams += [
-            dict(name="fn3wide", mode="fn", n=3, off="a10", self_="a1", filters=F_3, skips=["none"], extras="none"),
+            dict(name="fn3wide", mode="fn", n=3, off="a10", self_="a1", filters=F_2, skips=["none"], extras="none"),
             dict(name="fn3selfwide", mode="fn", n=3, off="a7", self_="a3", max_self=1, filters=F_3, skips=["none"], extras="none"),
-            dict(name="fn4", mode="fn", n=4, off="a3", self_="a1", filters=F_3, skips=["none"], extras="none"),
-            dict(name="fn4u", mode="fn", n=4, off="a5", self_="a1", max_pairs=5, filters=F_3, skips=["none"], extras="none"),
+            dict(name="fn4", mode="fn", n=4, off="a3", self_="a1", filters=F_2, skips=["none"], extras="none"),
+            dict(name="fn4u", mode="fn", n=4, off="a5", self_="a1", max_pairs=4, filters=F_3, skips=["none"], extras="none"),
             dict(name="e2e3wide", mode="e2e", n=3, off="a6", self_="a1"),
             dict(name="e2e3self", mode="e2e", n=3, off="a4na", self_="a3", max_self=1),
-            dict(name="e2e4", mode="e2e", n=4, off="a3", self_="a1", max_pairs=6),
+            dict(name="e2e4", mode="e2e", n=4, off="a3", self_="a1", max_pairs=5),
         ]
     return fams
 
